@@ -186,7 +186,7 @@ impl ToTokens for MatchArm<'_> {
         // even-more-specific span, our attempt here will not overwrite that and will only cost
         // us one `if` check.
         let extractor = quote_spanned!(with_callable.span()=>
-        ::darling::export::identity::<fn(&::syn::Meta) -> ::darling::Result<_>>(#with_callable)(__inner)
+        ::darling::export::identity::<fn(&::darling::export::syn::Meta) -> ::darling::Result<_>>(#with_callable)(__inner)
             #post_transform
             .map_err(|e| e.with_span(&__inner).at(#location))
         );
